@@ -48,6 +48,7 @@ type Report struct {
 	SyncRewrites   int
 	Yields         int
 	PointerKeyMaps []string
+	Broken         map[string][]string // packages that did not type-check (SkipBroken): path -> errors
 }
 
 const (
@@ -118,6 +119,10 @@ func Run(o Options) (*Report, error) {
 		for _, e := range p.Errors {
 			if o.SkipBroken {
 				broken[p.PkgPath] = true
+				if rep.Broken == nil {
+					rep.Broken = map[string][]string{}
+				}
+				rep.Broken[p.PkgPath] = append(rep.Broken[p.PkgPath], e.Error())
 				continue
 			}
 			loadErrs = append(loadErrs, e.Error())
